@@ -64,8 +64,11 @@ fn valid_text(v: u8) -> String {
     let v = v % 4;
     let (o1, o2, o3) = OUTS[v as usize];
     let z = if zip { format!("(defzippy zippy{v}.txt on-first-press-chord-deadline 500 idle-reactivate-time 50)\n") } else { String::new() };
+    // an override of the output chord of key k; odd variants release it on activation
+    let z = format!("{z}(defoverrides (lsft {o1}) ({o3}))\n");
+    let opt = if v % 2 == 1 { " override-release-on-activation yes" } else { "" };
     format!(
-        "(defcfg log-layer-changes no)\n(defsrc a b c d e f g h i j k l q r)\n{z}(deflayer base{v} {o1} (layer-while-held nav) (one-shot 60 lsft) lrld lrld-next lrld-prev (lrld-num 1) (lrld-num 2) (lrld-num 3) (macro {o3} 20 {o3}) S-{o1} (layer-switch nav) _ _)\n(deflayer nav {o2} _ _ lrld lrld-next lrld-prev (lrld-num 1) (lrld-num 2) (lrld-num 3) _ _ (layer-switch base{v}) _ _)\n"
+        "(defcfg log-layer-changes no{opt})\n(defsrc a b c d e f g h i j k l q r)\n{z}(deflayer base{v} {o1} (layer-while-held nav) (one-shot 60 lsft) lrld lrld-next lrld-prev (lrld-num 1) (lrld-num 2) (lrld-num 3) (macro {o3} 20 {o3}) S-{o1} (layer-switch nav) _ _)\n(deflayer nav {o2} _ _ lrld lrld-next lrld-prev (lrld-num 1) (lrld-num 2) (lrld-num 3) _ _ (layer-switch base{v}) _ _)\n"
     )
 }
 const OUTS: [(&str, &str, &str); 4] = [("x", "1", "m"), ("y", "2", "n"), ("z", "3", "o"), ("w", "4", "p")];
@@ -267,7 +270,7 @@ fn reload_notes(notes: &[String]) -> Vec<String> {
     out
 }
 
-/// The probe: q+r together (a zippychord chord in variants 4-7); tap a; hold b (layer) and tap a; tap k (output chord). Returns the key presses seen.
+/// The probe: q+r together (a zippychord chord in variants 4-7); tap a; hold b (layer) and tap a; tap k (output chord, overridden); hold k and tap a (tells override-release-on-activation). Returns the key presses seen.
 fn probe(l: &mut Live) -> Vec<String> {
     l.drain();
     l.send("q", true);
@@ -279,6 +282,9 @@ fn probe(l: &mut Live) -> Vec<String> {
     l.tap("a");
     l.send("b", false);
     l.tap("k");
+    l.send("k", true);
+    l.tap("a");
+    l.send("k", false);
     // until no more output arrives for 25 ms (at most 1 s)
     let mut all = vec![];
     let mut quiet = 0;
@@ -316,7 +322,7 @@ fn fresh_probe(v: u8) -> Vec<String> {
 fn fresh_probe_compute(v: u8) -> Vec<String> {
     let files: std::collections::HashMap<String, String> = (0u8..4).map(zippy_file).collect();
     let mut s = Sim::new_with_files(&valid_text(v), files).expect("family config parses");
-    for (key, press) in [("q", true), ("r", true), ("q", false), ("r", false), ("a", true), ("a", false), ("b", true), ("a", true), ("a", false), ("b", false), ("k", true), ("k", false)] {
+    for (key, press) in [("q", true), ("r", true), ("q", false), ("r", false), ("a", true), ("a", false), ("b", true), ("a", true), ("a", false), ("b", false), ("k", true), ("k", false), ("k", true), ("a", true), ("a", false), ("k", false)] {
         if press {
             s.press(code_of(key));
         } else {
@@ -619,7 +625,7 @@ impl TypedProp for C15 {
     fn info(&self) -> PropInfo {
         PropInfo {
             level: "exploration",
-            rule: "three configuration files on the command line; contents from a family of eight valid configurations (same defsrc, four sets of outputs and first-layer names, each with and without a zippychord dictionary of one chord; layer-while-held, one-shot, a macro, an output chord, lrld / lrld-next / lrld-prev / lrld-num 1-3 keys) or broken syntax / rejected by the parser / missing / a directory. Histories of 2-9 steps: rewrite a file, request a reload (plain, next, prev, num), request it while a key's output is held down (and probe notifications before the release), request it twice back-to-back, request it while another layer is active (layer-while-held key held, or after a layer-switch), make kanata busy right before (layer tap, one-shot, running macro), probe. Run on the real Kanata::start_processing_loop thread with real-time events 8 ms apart and simulated output. Oracle: a reference model of the active content (unchanged by a failed reload, replaced by a successful one, not before the held key's output is released); every probe (two keys pressed together - the dictionary chord where there is one -, tap, layer-held tap, output chord) must equal what a freshly started deterministic instance of the active content answers; a successful reload sends exactly ConfigFileReload(file) then LayerChange(first layer), a failed one nothing; nothing stays down; no panic in the processing thread. Non-trivial: a failed reload or a request while a key is held occurs. Distinct: hash of the case.".into(),
+            rule: "three configuration files on the command line; contents from a family of eight valid configurations (same defsrc, four sets of outputs and first-layer names, each with and without a zippychord dictionary of one chord, an override of the output chord, override-release-on-activation on in every second one; layer-while-held, one-shot, a macro, an output chord, lrld / lrld-next / lrld-prev / lrld-num 1-3 keys) or broken syntax / rejected by the parser / missing / a directory. Histories of 2-9 steps: rewrite a file, request a reload (plain, next, prev, num), request it while a key's output is held down (and probe notifications before the release), request it twice back-to-back, request it while another layer is active (layer-while-held key held, or after a layer-switch), make kanata busy right before (layer tap, one-shot, running macro), probe. Run on the real Kanata::start_processing_loop thread with real-time events 8 ms apart and simulated output. Oracle: a reference model of the active content (unchanged by a failed reload, replaced by a successful one, not before the held key's output is released); every probe (two keys pressed together - the dictionary chord where there is one -, tap, layer-held tap, overridden output chord, a tap while it is held) must equal what a freshly started deterministic instance of the active content answers; a successful reload sends exactly ConfigFileReload(file) then LayerChange(first layer), a failed one nothing; nothing stays down; no panic in the processing thread. Non-trivial: a failed reload or a request while a key is held occurs. Distinct: hash of the case.".into(),
             assumptions: vec![
                 "only time-insensitive behaviour is compared (real-time thread): sequences of key events, not their times".into(),
                 "after a failed lrld-next / lrld-prev the following requests are absolute (lrld-num): the statement does not say whether the file index advanced".into(),
